@@ -1,6 +1,7 @@
 /-
   oracle_c11 — line-protocol driver for the C11 models (Model/Conc.lean).
     facts                                  -> ok <allDisciplined:0|1> <protoFacts as expected:0|1> <n functions> <ownership facts:0|1> <failing ownership facts|->
+    tfacts                                 -> ok <thread facts:0|1> <operations another goroutine can execute, comma separated|->
     mon <events>                           -> ok <n> | bad <index> <what>      events: one letter each
                                               b save:begin  f save:finito  m mutation begins  e mutation ends
                                               c file created  d file goroutine done  o other
@@ -14,6 +15,7 @@
 -/
 import GocoinV.Model.Conc
 import GocoinV.Model.ConcOwn
+import GocoinV.Model.ConcThread
 import GocoinV.Base.Proto
 open GocoinV GocoinV.Conc
 
@@ -62,6 +64,9 @@ def step (_ : Unit) (toks : List String) : Unit × String :=
   | ["facts"] =>
     let ob := Own.ownFactsBad
     ((), s!"ok {Proto.boolStr allDisciplined} {Proto.boolStr (protoFacts == protoFactsOK)} {policy.length} {Proto.boolStr ob.isEmpty} {if ob.isEmpty then "-" else ",".intercalate ob}")
+  | ["tfacts"] =>
+    let fo := Thread.foreignOps
+    ((), s!"ok {Proto.boolStr (Thread.threadFacts == Thread.threadFactsOK)} {if fo.isEmpty then "-" else ",".intercalate fo}")
   | ["mon", evs] =>
     match (dash evs).toList.mapM monEv with
     | some es =>
